@@ -1,4 +1,5 @@
-(* C10, part 4: where the unchanged code does NOT hand the hardware the receptive field.  Every lemma exhibits a
+(* C10, part 4: instances on which earlier versions of the code did NOT hand the hardware the receptive field (all repaired
+   in /repo by now; kept as examples on the current code), and the unsupported width striping.  Every statement is a
    concrete instance on the faithful model (vm_compute); tools/checks/c10.py replays the same inputs on the real
    Python functions and on real compilations. *)
 From Coq Require Import ZArith List Bool Lia.
@@ -53,18 +54,20 @@ Proof.
   vm_compute. repeat split; reflexivity.
 Qed.
 
-(* (3) a PAD operator fused into an even-sized VALID kernel (EXPLICIT padding top = bottom = k/2, stride 1): the OFM is
-   one row TALLER than the IFM, the transform clips the OFM end to the IFM height before computing pad_bottom, and the
-   last stripe of a cascaded operator gets pad_bottom 0: the hardware reads one row beyond the IFM.
-   2x2 kernel, IFM 4 rows, PAD (1,1) -> OFM 5 rows; last stripe = OFM row 4 *)
-Lemma explicit_even_kernel_refuted_lemma :
+(* (3) REPAIRED (was: a PAD operator fused into an even-sized VALID kernel -- EXPLICIT padding top = bottom = k/2, stride 1 --
+   makes the OFM one row TALLER than the IFM; the transform computed pad_bottom from the OFM end clipped to the IFM height and
+   the last stripe of a cascaded operator got pad_bottom 0: the hardware read one row beyond the IFM).  With total_stride and
+   the padding test taken from the unclipped OFM end: 2x2 kernel, IFM 4 rows, PAD (1,1) -> OFM 5 rows; last stripe = row 4 *)
+Example explicit_even_kernel_repaired_example :
   exists pad skirt,
     calc_padding_and_skirt PAD_EXPLICIT 2 2 1 1 4 4 (p4 1 1 1 1) = Some (pad, skirt) /\
     let g := geom_of 4 5 2 1 1 pad skirt in
     g_in g < g_out g /\
-    stripe_h g 0 4 5 = (3, 4, 0, 0) /\
-    hw_tap 3 4 0 0 1 1 2 0 1 = TOob /\ ref_tap 0 4 1 1 4 1 = TPad /\
-    stripe_taps_ok g 0 4 5 = false /\ stripe_taps_ok g 0 0 5 = true.
+    stripe_h g 0 4 5 = (3, 4, 0, 1) /\
+    hw_tap 3 4 0 1 1 1 2 0 1 = TPad /\ ref_tap 0 4 1 1 4 1 = TPad /\
+    (* what the old pad_bottom 0 meant *)
+    hw_tap 3 4 0 0 1 1 2 0 1 = TOob /\
+    stripe_taps_ok g 0 4 5 = true /\ stripe_taps_ok g 0 0 5 = true /\ stripe_taps_ok g 0 2 5 = true.
 Proof. eexists _, _. split; [vm_compute; reflexivity|]. vm_compute. repeat split; reflexivity. Qed.
 
 (* (4) REPAIRED in /repo 8267dad (was: calc_explicit_padding lost bottom padding that the last window needs).
